@@ -4,6 +4,7 @@ import (
 	"encoding/json"
 	"errors"
 	"fmt"
+	"io"
 	"net/http"
 	"slices"
 
@@ -78,11 +79,17 @@ func NewJSONBulkHandlerFactory(bulkMaxSize int) HandlerFactory {
 var _ HandlerFactory = (*jsonBulkHandlerFactory)(nil)
 
 func writeJSONResponse(w http.ResponseWriter, actions []string, results []BulkElementResult, error error) {
+	// a stream that could not be parsed is a client error as much as a failed element
+	// (the JSON stream reader reports the regular end of the stream as io.EOF)
+	failed := error != nil && !errors.Is(error, io.EOF)
 	for _, result := range results {
 		if result.Error != nil {
-			w.WriteHeader(http.StatusBadRequest)
+			failed = true
 			break
 		}
+	}
+	if failed {
+		w.WriteHeader(http.StatusBadRequest)
 	}
 
 	slices.SortFunc(results, func(a, b BulkElementResult) int {
